@@ -12,8 +12,10 @@ import (
 	"encoding/json"
 	"fmt"
 	"math/rand"
+	"net/http"
 	"sort"
 	"strings"
+	"time"
 
 	"github.com/olareg/olareg"
 	"github.com/olareg/olareg/internal/verif/vh"
@@ -387,9 +389,103 @@ func runHistory(r *vh.Run, i int) {
 	}
 }
 
+// cursorTrial: a client is half-way through a paged listing when the list changes - an entry of a page it has already
+// read is deleted, the server has lost its cached pages (restart, or the page cache expired) and another client has
+// listed in between.  The continuation request names the digest of the old answer: whatever the server does with it,
+// every referrer that was present the whole time is delivered somewhere along the chain the client follows.
+func cursorTrial(r *vh.Run, i int) {
+	kind := []vh.StoreKind{vh.Mem, vh.Dir}[i%2]
+	root := ""
+	if kind == vh.Dir {
+		root = r.TempDir("cur")
+		defer vh.RemoveAll(root)
+	}
+	c := vh.Conf(kind, root, vh.Neutral)
+	c.API.Referrer.Limit = []int64{700, 900, 1100}[(i/2)%3]
+	c.API.Referrer.PageCacheExpire = time.Millisecond
+	srv := vh.New(c)
+	defer func() { _ = srv.Close() }()
+	cfg := &vh.Blob{Name: "ccfg", B: []byte(fmt.Sprintf(`{"cur":%d}`, i))}
+	cfg.D = vh.DigestOf("sha256", cfg.B)
+	vh.Do(srv, vh.Req{Method: "POST", URL: "/v2/c/blobs/uploads/?digest=" + cfg.D, Body: cfg.B})
+	subj := vh.MkImage("csubj", "sha256", vh.MTImage, cfg, vh.MTConfig, nil, "", "", map[string]string{"c": fmt.Sprint(i)})
+	vh.Do(srv, vh.Req{Method: "PUT", URL: "/v2/c/manifests/" + subj.D, H: map[string]string{"Content-Type": subj.MT}, Body: subj.Raw})
+	var arts []*vh.Man
+	for k := 0; k < 10; k++ {
+		a := vh.MkImage(fmt.Sprintf("cart%d", k), "sha256", vh.MTImage, cfg, vh.MTConfig, nil, subj.D, "application/x.a", map[string]string{"k": fmt.Sprint(k), "c": fmt.Sprint(i)})
+		if vh.Do(srv, vh.Req{Method: "PUT", URL: "/v2/c/manifests/" + a.D, H: map[string]string{"Content-Type": a.MT}, Body: a.Raw}).Status == 201 {
+			arts = append(arts, a)
+		}
+	}
+	digests := func(body []byte) []string {
+		var idx struct {
+			Manifests []struct{ Digest string } `json:"manifests"`
+		}
+		_ = json.Unmarshal(body, &idx)
+		var o []string
+		for _, m := range idx.Manifests {
+			o = append(o, m.Digest)
+		}
+		return o
+	}
+	next := func(h http.Header) string {
+		l := h.Get("Link")
+		a, b := strings.Index(l, "<"), strings.Index(l, ">")
+		if a < 0 || b < a {
+			return ""
+		}
+		return l[a+1 : b]
+	}
+	first := vh.Do(srv, vh.Req{Method: "GET", URL: "/v2/c/referrers/" + subj.D})
+	page0 := digests(first.Body)
+	cont := next(first.H)
+	if first.Status != 200 || cont == "" || len(page0) == 0 {
+		r.Count("cursor_trials_not_paged", 1)
+		return
+	}
+	// an entry of the page already read goes away; the cached pages are lost; another client lists
+	victim := page0[0]
+	if ds := vh.Do(srv, vh.Req{Method: "DELETE", URL: "/v2/c/manifests/" + victim}); ds.Status != 202 {
+		return
+	}
+	if kind == vh.Dir && (i/6)%2 == 0 {
+		_ = srv.Close()
+		srv = vh.New(c)
+	} else {
+		time.Sleep(20 * time.Millisecond) // page cache entries expire after 1 ms
+	}
+	vh.Do(srv, vh.Req{Method: "GET", URL: "/v2/c/referrers/" + subj.D})
+	// the first client goes on
+	got := map[string]bool{}
+	for _, d := range page0 {
+		got[d] = true
+	}
+	for steps := 0; cont != "" && steps < 40; steps++ {
+		rs := vh.Do(srv, vh.Req{Method: "GET", URL: cont})
+		if rs.Status != 200 {
+			break
+		}
+		for _, d := range digests(rs.Body) {
+			got[d] = true
+		}
+		cont = next(rs.H)
+	}
+	r.Count("cursor_trials", 1)
+	for _, a := range arts {
+		if a.D != victim && !got[a.D] {
+			r.Violation("referrers:lost-along-continued-walk", fmt.Sprintf("a client read page 1 of %d referrers, an entry of that page was deleted, the server lost its cached pages and another client listed; the first client followed its Link chain to the end and never received %s, which was present the whole time (%s store, limit %d)", len(arts), a.Name, kind, c.API.Referrer.Limit),
+				map[string]any{"trial": i, "store": kind.String(), "limit": c.API.Referrer.Limit, "first_page": len(page0)})
+			return
+		}
+	}
+}
+
 func main() {
 	r := vh.Start()
 	n := r.N(240, 8000)
+	nc := r.N(24, 400)
+	vh.Parallel(nc, 8, func(i int) { cursorTrial(r, i) })
+	r.Require("cursor_trials", int64(nc/2))
 	vh.Parallel(n, 16, func(i int) { runHistory(r, i) })
 	r.Require("histories", int64(n))
 	r.Require("list_walks", 2000)
